@@ -169,7 +169,9 @@ CullOK(r) == \E c \in {[pl |-> [k \in 1..6 |-> <<PN(r.t, r.planes[k]), PD(r.t, r
         corners == {<< IF i = 0 THEN c.mn[1] ELSE c.mx[1], IF j = 0 THEN c.mn[2] ELSE c.mx[2], IF m = 0 THEN c.mn[3] ELSE c.mx[3] >> : i \in {0, 1}, j \in {0, 1}, m \in {0, 1}}
         xInBox == \A i \in 1..3 : Le(c.mn[i], c.x[i]) /\ Le(c.x[i], c.mx[i])
         xInSphere == LenLe(VSub(c.x, c.sc), c.sr)
-    IN  \* a point: membership in the interior of the region
+    IN  \* the test object reports the camera matrix and frustum it was given (or its defaults)
+        /\ (Has(r, "camm") => r.camm = r.cam /\ r.cst = r.st /\ r.co = r.o)
+        \* a point: membership in the interior of the region
         /\ inside(c.x) => r.vp = 1
         /\ outside(c.x) => r.vp = 0
         \* a box: never culled when it touches the region; culled when wholly beyond one plane
